@@ -446,6 +446,55 @@ fn shell_cases() -> Vec<(String, Vec<String>)> {
     add("x=aXbXc; args \"${x#*X}\" \"${x##*X}\" \"${x%X*}\" \"${x%%X*}\"".into(), &["args[bXc][c][aXb][a]"]);
     add("x=abcabc; args \"${x#a*c}\" \"${x##a*c}\" \"${x%a*c}\" \"${x%%a*c}\"".into(), &["args[abc][][abc][]"]);
     add("x='[a]b'; args \"${x#[[]}\" \"${x#[}\" \"${x%[!a]}\" \"${x#?a]}\"".into(), &["args[a]b][a]b][[a]][b]"]);
+    // every sequence of up to four items, each with a pattern that matches the subject or not
+    // and one of the four terminators (docs/src/language/commands/case.md): the first matching
+    // item runs; after `;&` the next item runs whatever its pattern; after `;;&` / `;|` matching
+    // goes on with the following items; `;;` ends the command
+    {
+        let terms = [";;", ";&", ";;&", ";|"];
+        let mut seqs: Vec<Vec<(bool, usize)>> = vec![vec![]];
+        let mut frontier: Vec<Vec<(bool, usize)>> = vec![vec![]];
+        for _ in 0..4 {
+            let mut next = vec![];
+            for f in &frontier {
+                for m in [true, false] {
+                    for t in 0..4 {
+                        let mut g = f.clone();
+                        g.push((m, t));
+                        next.push(g);
+                    }
+                }
+            }
+            seqs.extend(next.iter().cloned());
+            frontier = next;
+        }
+        for seq in seqs {
+            if seq.is_empty() {
+                continue;
+            }
+            let mut script = String::from("case a in ");
+            let mut expect: Vec<String> = vec![];
+            let mut falling = false;
+            let mut done = false;
+            for (k, (m, t)) in seq.iter().enumerate() {
+                script.push_str(&format!("({}) p i{k} ", if *m { "a" } else { "b" }));
+                // the terminator of the last item may be left out; keep it for uniformity
+                script.push_str(terms[*t]);
+                script.push(' ');
+                if !done && (falling || *m) {
+                    expect.push(format!("i{k}:0"));
+                    match *t {
+                        0 => done = true,
+                        1 => falling = true,
+                        _ => falling = false,
+                    }
+                }
+            }
+            script.push_str("esac");
+            v.push((script, expect));
+        }
+    }
+
     v
 }
 
@@ -574,7 +623,7 @@ pub fn run(tier: Tier) -> i32 {
     let cov = json!({
         "evaluations": counters.pairs.load(Relaxed) + shell_runs,
         "distinct_nontrivial": counters.nontrivial.load(Relaxed),
-        "rule": format!("(i) every character sequence of length <= {pmax} over {{a b . - * ? [ ] ! ^ \\ : =}} read with backslash escapes, and every Literal/Normal marking of sequences <= 3, x every string of length <= 3 (2 for the longest patterns) over {{a b . - ] [ ^ \\ : é}}, in all four anchorings; for patterns <= 3 also find/rfind with shortest/longest in the combinations # ## % %% use; (i'') every complete bracket expression with a body of <= 4/5 characters over {{a b - [ ] ! ^ . : = \\ é}}, alone and followed by *; (ii) every sequence of <= {umax} units (those characters plus [.c.] [=c=] for 14 characters, [:alpha:], [:punct:]) containing an inner bracket element; oracle = own parser of XCU 2.14 + naive backtracking; (iii) case and trim forms through the whole shell with each special character quoted in every style. Non-trivial = pattern with at least one non-literal atom; distinct by (pattern, literal mask)."),
+        "rule": format!("(i) every character sequence of length <= {pmax} over {{a b . - * ? [ ] ! ^ \\ : =}} read with backslash escapes, and every Literal/Normal marking of sequences <= 3, x every string of length <= 3 (2 for the longest patterns) over {{a b . - ] [ ^ \\ : é}}, in all four anchorings; for patterns <= 3 also find/rfind with shortest/longest in the combinations # ## % %% use; (i'') every complete bracket expression with a body of <= 4/5 characters over {{a b - [ ] ! ^ . : = \\ é}}, alone and followed by *; (ii) every sequence of <= {umax} units (those characters plus [.c.] [=c=] for 14 characters, [:alpha:], [:punct:]) containing an inner bracket element; oracle = own parser of XCU 2.14 + naive backtracking; (iii) case and trim forms through the whole shell with each special character quoted in every style; every case command of <= 4 items x {{matching, non-matching pattern}} x the four terminators ;; ;& ;;& ;| against the documented item selection. Non-trivial = pattern with at least one non-literal atom; distinct by (pattern, literal mask)."),
         "samples": samples.take(),
         "patterns_char_sequences": pats.len(),
         "patterns_unit_sequences": upats.len(),
